@@ -23,6 +23,11 @@ func (r *ReadFS) OpenFile(path string, flag experimentalsys.Oflag, perm fs.FileM
 	default: // sys.O_RDONLY (integer zero) so we are ok!
 	}
 
+	// Creating or truncating a file modifies the file system regardless of the access mode.
+	if flag&(experimentalsys.O_CREAT|experimentalsys.O_TRUNC) != 0 {
+		return nil, experimentalsys.EROFS
+	}
+
 	f, errno := r.FS.OpenFile(path, flag, perm)
 	if errno != 0 {
 		return nil, errno
